@@ -133,3 +133,64 @@ fn string_sig<const N: usize>() {
 fn c18_string_n3() {
     string_sig::<3>();
 }
+
+
+/// vector whose capacity exceeds its length (spare capacity must not leak into the identity)
+macro_rules! vec_sig_cap {
+    ($name:ident, $ty:ty, $n:expr, $extra:expr, $unw:expr) => {
+        #[kani::proof]
+        #[kani::unwind($unw)]
+        fn $name() {
+            const SZ: usize = std::mem::size_of::<$ty>();
+            let a: [$ty; $n] = kani::any();
+            let mut va: Vec<$ty> = Vec::with_capacity($n + $extra);
+            for i in 0..$n {
+                va.push(a[i]);
+            }
+            // a popped element leaves stale data in the spare capacity
+            let stale: $ty = kani::any();
+            va.push(stale);
+            va.pop();
+            assert!(va.capacity() > va.len());
+            let sa = va.get_sig();
+            assert!(sa.len() == $n * SZ);
+            for i in 0..$n {
+                let nb = a[i].to_ne_bytes();
+                for j in 0..SZ {
+                    assert!(sa[i * SZ + j] == nb[j]);
+                }
+            }
+            kani::cover!($n == 0 || a[0] != stale, "witness");
+            drop(sa);
+            drop(va);
+        }
+    };
+}
+vec_sig_cap!(c18_vec_u8_cap, u8, 2, 3, 8);
+vec_sig_cap!(c18_vec_u16_cap, u16, 2, 3, 8);
+vec_sig_cap!(c18_vec_u32_cap, u32, 2, 2, 12);
+
+/// strings with non-ASCII content: identity == the UTF-8 bytes (two symbolic chars up to U+FFFF)
+#[kani::proof]
+#[kani::unwind(8)]
+fn c18_string_utf8() {
+    let c1: u32 = kani::any();
+    let c2: u32 = kani::any();
+    kani::assume(c1 < 0xD800 && c2 < 0xD800);
+    let mut s = String::new();
+    s.push(char::from_u32(c1).unwrap());
+    s.push(char::from_u32(c2).unwrap());
+    let n = s.len();
+    assert!(n >= 2 && n <= 6);
+    let sig = s.get_sig();
+    assert!(sig.len() == n);
+    let b = s.as_bytes();
+    for i in 0..6 {
+        if i < n {
+            assert!(sig[i] == b[i]);
+        }
+    }
+    kani::cover!(n == 5, "witness: a 2-byte and a 3-byte character");
+    drop(sig);
+    drop(s);
+}
